@@ -130,6 +130,9 @@ def _stage1_plans(quick):
     # release_conn() of an unfinished response must close the connection BEFORE it puts it back
     plans.append(("dev PutBeforeClose", dict(nt=2, m=1, block=True, reqs=1, stream=True, outcomes=("ok", "partial"),
                                              dev=("PutBeforeClose",)), SAFETY, ["Inv_ExclusiveUse", "Inv_OwnResponse"]))
+    # a close() that drains first and disables the pool afterwards strands checkouts OUTSIDE the recorded D8 class
+    plans.append(("dev DrainThenDisable", dict(nt=1, closer=True, m=1, block=True, reqs=1, outcomes=("ok",),
+                                               dev=("DrainThenDisable",)), SAFETY + "INVARIANT Inv_HangOnlyD8\n", ["Inv_HangOnlyD8"]))
     plans.append(("dev NoBlockRaise", dict(nt=2, m=1, block=True, reqs=1, outcomes=("ok",), dev=("NoBlockRaise",)), SAFETY,
                   ["Inv_BlockBound", "Inv_ClosedPoolOutcome"]))
     if not quick:
@@ -223,12 +226,15 @@ def configurations(quick, seed):
             for closer in (False, True):
                 for stream in ((False, True) if not quick else ((m == 2) != closer,)):
                     nts = (2,) if quick else (2, 3)
+                    if closer and block:
+                        nts = (1,) + nts          # a single request thread racing close()
                     for nt in nts:
                         reqs = 1 if (closer or nt == 3) else 2
                         failing = str(rng.randint(1, nt))
-                        other = str(rng.choice([t for t in range(1, nt + 1) if str(t) != failing]))
-                        script = {failing: ["fail", "ok"],
-                                  other: ["partial"] if stream else (["okclose"] if reqs == 2 else ["ok"])}
+                        script = {failing: ["fail", "ok"]}
+                        if nt > 1:
+                            other = str(rng.choice([t for t in range(1, nt + 1) if str(t) != failing]))
+                            script[other] = ["partial"] if stream else (["okclose"] if reqs == 2 else ["ok"])
                         out.append(dict(maxsize=m, block=block, closer=closer, stream=stream, nthreads=nt, reqs=reqs,
                                         script=script, retries=1))
     return out
@@ -525,7 +531,7 @@ def run(rep):
         "random schedules are unbounded in preemptions",
         "TLC 1.8 and CPython 3.12 sys.monitoring are trusted"]
     bound = 2 if quick else 3
-    budget = 700 if quick else 5000          # DFS schedules per configuration
+    budget = 600 if quick else 5000          # DFS schedules per configuration
     cfgs = configurations(quick, rep.seed)
     recs = []
     trunc = 0
